@@ -547,7 +547,7 @@ func nsPick08(r *rand.Rand, rate int) []byte {
 func TestC08(t *testing.T) {
 	m := mon.New(t, "C08")
 	defer m.Done()
-	m.Rule("case = one history on one variant (index-scheduled: shake128/256, cshake128/256, legacy keccak256/512 get 3/4 of the cases, sha3-224/256/384/512 1/4): message length from the index-scheduled class list {0,1,k·rate+d (k=1..3,d=-2..2),5·rate,1000,random 0..1000}, written in random chunkings (single, first chunk at rate±1, 1..3-byte chunks, with empty writes, random cuts), interleaved with Sum (random prefix/capacity), Clone (ShakeHash.Clone / hash.Cloner; clones are kept and later diverged), Reset, mid-stream Read; every XOF history ends with Sum, Clone, Read of 0..1000 bytes in random chunks, then Write and Sum attempts that must panic, then checks on clones taken before and after the Read; cSHAKE N,S from {0,1,31,32,rate-8,rate-7,rate-6,167,168,169,300}² with empty/empty forced every 9th sweep. Oracle = executable FIPS 202/SP 800-185 spec (h/ref/keccak) as a pure function of (variant,N,S,bytes written since Reset, bytes read); panics judged both ways where documented (Write/Sum after Read on ShakeHash, Write/Sum after Read on the legacy state via io.Reader); zero-length first Read, Sum on a squeezing clone and Reset-after-Read accept every consistent reading. distinct = (variant, length class, chunk style, N/S size class, set of interleaved op kinds, output class)")
+	m.Rule("case = one history on one variant (index-scheduled: shake128/256, cshake128/256, legacy keccak256/512 get 3/4 of the cases, sha3-224/256/384/512 1/4): message length from the index-scheduled class list {0,1,k·rate+d (k=1..3,d=-2..2),5·rate,1000,random 0..1000}, written in random chunkings (single, first chunk at rate±1, 1..3-byte chunks, with empty writes, random cuts), interleaved with Sum (random prefix/capacity), Clone (ShakeHash.Clone / hash.Cloner; clones are kept and later diverged), Reset, mid-stream Read; every XOF history ends with Sum, Clone, Read of 0..1000 bytes in random chunks, then Write and Sum attempts that must panic, then checks on clones taken before and after the Read; cSHAKE N,S from {0,1,31,32,rate-8,rate-7,rate-6,167,168,169,300}² with empty/empty and (empty, rate-7 bytes: prefix fills one block exactly) each forced every 9th sweep. Oracle = executable FIPS 202/SP 800-185 spec (h/ref/keccak) as a pure function of (variant,N,S,bytes written since Reset, bytes read); panics judged both ways where documented (Write/Sum after Read on ShakeHash, Write/Sum after Read on the legacy state via io.Reader); zero-length first Read, Sum on a squeezing clone and Reset-after-Read accept every consistent reading. distinct = (variant, length class, chunk style, N/S size class, set of interleaved op kinds, output class)")
 	m.Assume("h/ref/keccak derives ρ offsets and ι constants from the FIPS 202 algorithms and passes FIPS 202 / SP 800-185 sample / Keccak-256/512 known answers in its own unit test; cross-checked here on every comparison against libgcrypt (SHA3, SHAKE), nettle (SHA3) and on final states against python hashlib; cSHAKE with non-empty N/S and legacy Keccak have the ref as only oracle (same sponge code, different domain byte/prefix)")
 	py, err := ext.StartPy()
 	if err != nil {
@@ -569,7 +569,11 @@ func TestC08(t *testing.T) {
 		}
 		nsClass := "-"
 		if v.kind == kCSHAKE {
-			if (blk/int64(len(lcs)))%9 != 0 {
+			switch (blk / int64(len(lcs))) % 9 {
+			case 0: // empty N and S: must equal SHAKE
+			case 1: // bytepad input is exactly one rate block: 2 + 2 + 3 + (rate-7)
+				c.s = mon.Bytes(r, v.rate-7)
+			default:
 				c.n, c.s = nsPick08(r, v.rate), nsPick08(r, v.rate)
 			}
 			pre := keccak.CSHAKEPrefixUnpadded(c.n, c.s)
@@ -770,6 +774,7 @@ func TestC08(t *testing.T) {
 	m.Gate("clones_diverged", q(2500, 100000), "clones written to independently and compared")
 	m.Gate("resets_after_read", q(500, 20000), "Reset after Read followed by Sum+Write probe")
 	m.Gate("cshake_empty_NS_equals_shake", q(50, 2000), "cSHAKE with empty N and S compared with SHAKE definition (and gcrypt SHAKE)")
+	m.Gate("cshake_prefix_exactly_fills_block", q(50, 2000), "encode_string(N)||encode_string(S) with left_encode(rate) is a whole number of rate blocks (bytepad adds nothing)")
 	m.Gate("read_crosses_rate_boundary", q(1000, 40000), "a Read spanning a permutation boundary")
 	m.Gate("sum_comparisons", q(10000, 400000), "Sum outputs compared with the reference")
 	m.Gate("read_comparisons", q(5000, 200000), "Read outputs compared with the reference")
